@@ -10,6 +10,7 @@ Oracle: token equality, conservation (attached = delivered, queue consumed by th
 """
 import itertools
 import random
+import zlib
 
 from harness import clientfix, ref_codec as R, ref_grammar as G, ref_message as RM, simnet
 from checks.c04 import RecServer, RecClient, SERVER_HS, CLIENT_HS
@@ -87,8 +88,24 @@ def run_schedule(ctx, msgs, schedule, mode, case):
     """schedule: list of ('fd', msg index, pos) | ('read', bytes)."""
     p = RecServer() if mode == 'server' else RecClient()
     ep = simnet.Endpoint(p, unix=True, name='rx').connect()
-    for piece in (SERVER_HS if mode == 'server' else CLIENT_HS + [b'AGREE_UNIX_FD\r\n']):
+    hs = list(SERVER_HS if mode == 'server' else CLIENT_HS + [b'AGREE_UNIX_FD\r\n'])
+    # the peer may pipeline its first messages behind the line that ends the handshake: that line (or its second half)
+    # then arrives in the same read as the first message bytes, AFTER the descriptors of that read
+    coalesce = zlib.crc32(repr(sorted(case.items())).encode()) % 4 if schedule and schedule[0][0] == 'fd' else 0
+    tail = b''
+    if coalesce == 1:
+        tail = hs.pop()
+    elif coalesce == 2:
+        last = hs.pop()
+        hs.append(last[:3])
+        tail = last[3:]
+    for piece in hs:
         ep.feed(piece)
+    if tail:
+        ctx.count('handshake_end_coalesced_with_descriptor_message')
+        k = next(i for i, e in enumerate(schedule) if e[0] == 'read')
+        schedule = list(schedule)
+        schedule[k] = ('read', tail + schedule[k][1], None)
     ctx.count('evaluations')
     queued_ahead = 0
     delivered_before = 0
